@@ -14,8 +14,10 @@ OPTS = {
     'O2': (['-O2', '-g0', '-DNDEBUG'], []),
     'san': (['-O1', '-g', '-fsanitize=address,undefined', '-fno-sanitize-recover=all', '-DSIM_SANITIZE'], ['-fsanitize=address,undefined']),
 }
-RULE = ('a case = (algorithm in 19 x range length 0..6 x source iterator kind {pointer, random access, bidirectional, forward, move_iterator} x '
-        'value category {trivial, declared trivially relocatable, non-relocatable with identity ledger, throwing-move}) drawn by seed; for each '
+RULE = ('a case = (algorithm in 19 x range length 0..6 x iterator kind {pointer, const pointer, contiguous random access, bidirectional, forward, '
+        'move_iterator, single-pass input stream, reverse_iterator over pointers, strided (non-contiguous) random access; destination through a '
+        'reverse_iterator / forward / random-access wrapper} x value category {trivial, declared trivially relocatable, non-relocatable with '
+        'identity ledger, throwing-move, aggregate without user-provided default constructor, trivial constructor with user-provided assignment}) drawn by seed; for each '
         'case the fault-free execution and then every throw index k=0,1,2,... (until no fault fires) are executed; an evaluation is one execution; '
         'distinct_nontrivial counts distinct (algorithm, length, iterator kind, value category) cells, summed over the builds that ran them')
 
